@@ -46,6 +46,44 @@ theorem refs_only_dummies_fail :
   revert this
   decide
 
+/-- **… also where parameters have no value.**  For every table of built-ins, every space, every set of
+parameters that the ItemSpaces on the access path bind (none: `P.foo()`; some: `P[1].Q.foo()`; all: inside
+the innermost ItemSpace) and every name that is global in the formula: the exported method finds what
+modelx's namespace-then-built-ins rule finds.  (Full statement since the repair 28e12dc, which made a
+parameter without value that is named like a built-in denote the built-in; `no_class_fallback_fails`
+is the code before it.) -/
+theorem static_access_resolves_same (builtins : List String) (t : SpaceNames) (bound : List String)
+    (n : String) :
+    exportedResolveAt Generated.exportReplaceOrder Generated.exportDummyFor
+        Generated.exportStaticFallbackFor Generated.exportStaticFallbackUnless builtins t bound n =
+      mxResolveAt builtins t bound n := by
+  simp only [exportedResolveAt, mxResolveAt, shouldReplace_generated, classFallback,
+    Generated.exportStaticFallbackFor, Generated.exportStaticFallbackUnless, container,
+    List.flatMap_cons, List.flatMap_nil, List.append_nil, SpaceNames.hasValue]
+  rw [topNames_generated]
+  simp only [SpaceNames.isMember, List.contains_eq_mem, List.mem_append, String.reduceEq, ↓reduceIte]
+  by_cases h1 : n ∈ t.cells <;> by_cases h2 : n ∈ t.refs <;> by_cases h3 : n ∈ t.spaces <;>
+    by_cases h4 : n ∈ t.params <;> by_cases h5 : n ∈ bound <;> by_cases h6 : n ∈ builtins <;>
+    simp [h1, h2, h3, h4, h5, h6]
+
+/-- Without the class-level fall-backs (the code before 28e12dc) the statement is false: `P.foo()` with
+`lambda: int` in a space whose parameter is named `int` - modelx reads the built-in, the exported method
+finds no attribute (finding C15-static-access-builtin-named-param, repaired; witness in the corpus). -/
+theorem no_class_fallback_fails :
+    ¬ ∀ (builtins : List String) (t : SpaceNames) (bound : List String) (n : String),
+      exportedResolveAt Generated.exportReplaceOrder Generated.exportDummyFor [] [] builtins t bound n =
+        mxResolveAt builtins t bound n := by
+  intro h
+  have := h ["int"] { params := ["int"] } [] "int"
+  revert this
+  decide
+
+/-- where every visible parameter is bound (inside the ItemSpace) this is `rewrite_resolves_same` -/
+theorem all_bound_is_member_rule (builtins : List String) (t : SpaceNames) (n : String) :
+    mxResolveAt builtins t t.params n = mxResolve builtins t n := by
+  simp only [mxResolveAt, mxResolve, SpaceNames.hasValue, SpaceNames.isMember, Bool.and_self]
+  rfl
+
 /-- a cells or reference of the space wins over a built-in of the same name -/
 theorem member_wins_over_builtin (builtins : List String) (t : SpaceNames) (n : String)
     (h : n ∈ t.cells ∨ n ∈ t.refs) :
@@ -325,6 +363,18 @@ example :
      readBack Generated.exportLiteralTypes .literal pc)
     = (.literal, none, .literal, some ("float", 5)) := by decide
 
+
+/-- `P[x, id].Q[y]`, a formula of `Q` reading `id`, `x`, `y`, `len`: on `P[1, 2].Q[3]` all are arguments; on
+`P[1, 2].Q` (static) `y` has no value; on `P.Q` none has - `id` is then the built-in, `x` nothing. -/
+example :
+    let t : SpaceNames := { cells := ["foo"], params := ["y", "x", "id"] }
+    let b := ["id", "len"]
+    let r := fun bound n => exportedResolveAt Generated.exportReplaceOrder Generated.exportDummyFor
+      Generated.exportStaticFallbackFor Generated.exportStaticFallbackUnless b t bound n
+    (["id", "x", "y", "len"].map (r ["y", "x", "id"]), ["id", "x", "y", "len"].map (r ["x", "id"]),
+     ["id", "x", "y", "len"].map (r []))
+    = ([.member, .member, .member, .builtin], [.member, .member, .unbound, .builtin],
+       [.builtin, .unbound, .unbound, .builtin]) := by decide
 
 /-- `len` is a reference, `max` a cells, `sum` nothing: two rewritten, one kept. -/
 example :
